@@ -21,3 +21,6 @@ func VerifStripEthernetHeader(buf []byte) ([]byte, error) { return stripEthernet
 
 // VerifGetReadTimeout exposes getReadTimeout.
 func VerifGetReadTimeout(deadline time.Time) time.Duration { return getReadTimeout(deadline) }
+
+// VerifDropAllFilter exposes the drop-all program used while draining.
+func VerifDropAllFilter() []bpf.RawInstruction { return dropAllFilter }
